@@ -120,6 +120,16 @@ func (router *Router) FindRoute(req *http.Request) (*routers.Route, map[string]s
 	} else {
 		var paramValues []string
 		server, paramValues, remainingPath = servers.MatchURL(url)
+		if server == nil && url.Host == "" && req.Host != "" {
+			// A request as a server receives it: the host is in req.Host and the scheme follows from req.TLS.
+			absURL := *url
+			absURL.Host = req.Host
+			absURL.Scheme = "http"
+			if req.TLS != nil {
+				absURL.Scheme = "https"
+			}
+			server, paramValues, remainingPath = servers.MatchURL(&absURL)
+		}
 		if server == nil {
 			return nil, nil, &routers.RouteError{
 				Reason: routers.ErrPathNotFound.Error(),
